@@ -117,7 +117,7 @@ Fixpoint digits_fuel (fuel : nat) (n : N) (acc : str) : str :=
   end.
 
 (* decimal digits of a natural number, most significant first; "0" for 0 *)
-Definition digits_of_N (n : N) : str := digits_fuel (S (N.size_nat n)) n [].
+Definition digits_of_N (n : N) : str := digits_fuel (S (N.to_nat (N.size n))) n [].
 
 (* str(int) *)
 Definition py_int_repr (z : Z) : str :=
@@ -186,9 +186,8 @@ Fixpoint take_digits (s : str) : str * str :=
 
 Definition split_sign (s : str) : bool * str :=
   match s with
-  | 45 :: s' => (true, s')
-  | 43 :: s' => (false, s')
-  | _ => (false, s)
+  | c :: s' => if c =? 45 then (true, s') else if c =? 43 then (false, s') else (false, s)
+  | [] => (false, s)
   end.
 
 Definition int_of_lit (s : str) : Z :=
